@@ -142,6 +142,10 @@ func nextSeq() int64 { seqCounter++; return seqCounter }
 func (s *Store) Loader(log *ReqLog) func(string) (json.RawMessage, error) {
 	return func(u string) (json.RawMessage, error) {
 		YieldPoint("loader")
+		if ForeignSeen() {
+			foreignMu.Lock()
+			defer foreignMu.Unlock()
+		}
 		r := Req{Seq: nextSeq(), URL: u}
 		doc, ok := s.bytes[u]
 		f, faulty := s.faults[u]
